@@ -1,14 +1,16 @@
 #!/bin/sh
 # run every registered check of MANIFEST.json (tier $1, default quick) and print one status line each
 tier=${1:-quick}
-cd /verif
+# run in the tree this script belongs to (a snapshot worktree when started through vp run), not necessarily /verif
+cd "$(dirname "$0")/.."
 /venv/bin/python - "$tier" <<'PY'
-import json, subprocess, sys, time
+import json, os, subprocess, sys, time
 tier = sys.argv[1]
 man = json.load(open("MANIFEST.json"))
 bad = 0
 for c in man["checks"]:
     cmd = c["quick_cmd"] if tier == "quick" else c["thorough_cmd"]
+    cmd = cmd.replace("cd /verif", "cd " + os.getcwd())
     t0 = time.time()
     p = subprocess.run(cmd, shell=True, stdout=subprocess.PIPE, stderr=subprocess.STDOUT, text=True)
     last = p.stdout.strip().splitlines()[-1] if p.stdout.strip() else ""
